@@ -8,7 +8,9 @@ def go2v_hook(root, repo, work, hexe):
     tmp = os.path.join(work, 'Kernels.v')
     p = subprocess.run([hexe, 'go2v', tmp], stdout=subprocess.PIPE, stderr=subprocess.STDOUT, text=True, env=env, timeout=300)
     if p.returncode != 0:
-        return False, 'go2v: a whitelisted kernel is no longer inside the translatable subset: ' + p.stdout[-600:], {}
+        # the regenerated-model tie cannot be established for the rewritten kernel; the hand-written model
+        # is still tied to the code by the correspondence run (DESIGN.md 10: soft tie loss)
+        return False, 'SOFT: go2v: a whitelisted kernel is no longer inside the translatable subset: ' + p.stdout[-600:], {'go2v_tie': 'lost (outside subset)'}
     dst = os.path.join(root, 'coq', 'Gen', 'Kernels.v')
     if not os.path.exists(dst) or not filecmp.cmp(tmp, dst, shallow=False):
         shutil.copyfile(tmp, dst + '.new'); os.replace(dst + '.new', dst)
@@ -18,6 +20,14 @@ def go2v_hook(root, repo, work, hexe):
     extra = {'go2v_kernels_regenerated': n, 'go2v_equivalence_lemmas': lem}
     if m.returncode != 0:
         err = re.findall(r'File "\./Gen/KernelsEquiv\.v", line (\d+)', m.stdout)
-        return False, 'kernel equivalence (coq/Gen/KernelsEquiv.v%s) no longer checks against the kernels regenerated from the repository: %s' % (
-            (' line ' + err[0]) if err else '', m.stdout[-500:]), extra
+        where = (' line ' + err[0]) if err else ''
+        # does the regenerated kernel still agree with the model on the boundary grid (vm_compute)?
+        g = subprocess.run(['make', '-j4', 'Gen/KernelsGrid.vo'], cwd=os.path.join(root, 'coq'), stdout=subprocess.PIPE, stderr=subprocess.STDOUT, text=True, timeout=1800)
+        if g.returncode != 0:
+            gerr = re.findall(r'File "\./Gen/KernelsGrid\.v", line (\d+)', g.stdout)
+            extra['go2v_tie'] = 'broken: semantic difference on the boundary grid'
+            return False, ('kernel equivalence (coq/Gen/KernelsEquiv.v%s) no longer checks AND the kernel regenerated from the repository differs from the '
+                           'model on the boundary grid (coq/Gen/KernelsGrid.v%s): the arithmetic changed: %s') % (where, (' line ' + gerr[0]) if gerr else '', g.stdout[-400:]), extra
+        extra['go2v_tie'] = 'lost (lemma script no longer applies; boundary grid agrees)'
+        return False, 'SOFT: kernel equivalence lemma (coq/Gen/KernelsEquiv.v%s) no longer checks against the regenerated kernels, but they agree with the model on the whole boundary grid' % where, extra
     return True, '', extra
